@@ -67,25 +67,37 @@ package storage
 //@ assume func writeNodePledge
 //@   modifies *txn
 //@   ensures forall k mathint :: {badger.kvget(*txn, k)} keykind(k) == 2 ==> badger.kvget(*txn, k) == old(badger.kvget(*txn, k))
+//@   ensures [c15-frame] forall k mathint :: {badger.kvget(*txn, k)} keykind(k) != 14 ==> badger.kvget(*txn, k) == old(badger.kvget(*txn, k)) -- C15: its single Set writes a key of kind 14 (see zz_contracts_c15_verif.go)
+//@   ensures [c15-fail] err != nil ==> *txn == old(*txn) -- every error return precedes the Set, or is the Set's own error
 //@ assume func writeNodeCancel
 //@   modifies *txn
 //@   ensures forall k mathint :: {badger.kvget(*txn, k)} keykind(k) == 2 ==> badger.kvget(*txn, k) == old(badger.kvget(*txn, k))
+//@   ensures [c15-frame] forall k mathint :: {badger.kvget(*txn, k)} keykind(k) != 14 ==> badger.kvget(*txn, k) == old(badger.kvget(*txn, k)) -- C15: its single Set writes a key of kind 14 (see zz_contracts_c15_verif.go)
+//@   ensures [c15-fail] err != nil ==> *txn == old(*txn) -- every error return precedes the Set, or is the Set's own error
 //@ assume func writeNodeAccept
 //@   modifies *txn
 //@   ensures forall k mathint :: {badger.kvget(*txn, k)} keykind(k) == 2 ==> badger.kvget(*txn, k) == old(badger.kvget(*txn, k))
+//@   ensures [c15-frame] forall k mathint :: {badger.kvget(*txn, k)} keykind(k) != 14 ==> badger.kvget(*txn, k) == old(badger.kvget(*txn, k)) -- C15: its single Set writes a key of kind 14 (see zz_contracts_c15_verif.go)
+//@   ensures [c15-fail] err != nil ==> *txn == old(*txn) -- every error return precedes the Set, or is the Set's own error
 //@ assume func writeNodeRemove
 //@   modifies *txn
 //@   ensures forall k mathint :: {badger.kvget(*txn, k)} keykind(k) == 2 ==> badger.kvget(*txn, k) == old(badger.kvget(*txn, k))
+//@   ensures [c15-frame] forall k mathint :: {badger.kvget(*txn, k)} keykind(k) != 14 ==> badger.kvget(*txn, k) == old(badger.kvget(*txn, k)) -- C15: its single Set writes a key of kind 14 (see zz_contracts_c15_verif.go)
+//@   ensures [c15-fail] err != nil ==> *txn == old(*txn) -- every error return precedes the Set, or is the Set's own error
 //@ assume func writeCustodianNodes
 //@   modifies *txn
 //@   ensures forall k mathint :: {badger.kvget(*txn, k)} keykind(k) == 2 ==> badger.kvget(*txn, k) == old(badger.kvget(*txn, k))
+//@   ensures [c15-frame] forall k mathint :: {badger.kvget(*txn, k)} keykind(k) != 15 ==> badger.kvget(*txn, k) == old(badger.kvget(*txn, k)) -- C15: its single Set writes a key of kind 15 (see zz_contracts_c15_verif.go)
+//@   ensures [c15-fail] err != nil ==> *txn == old(*txn) -- every error return precedes the Set, or is the Set's own error
 //@ assume func writeWithdrawalClaim
 //@   modifies *txn
 //@   ensures forall k mathint :: {badger.kvget(*txn, k)} keykind(k) == 2 ==> badger.kvget(*txn, k) == old(badger.kvget(*txn, k))
+//@   ensures [c15-frame] forall k mathint :: {badger.kvget(*txn, k)} keykind(k) != 16 ==> badger.kvget(*txn, k) == old(badger.kvget(*txn, k)) -- C15: its single Set writes a key of kind 16 (see zz_contracts_c15_verif.go)
+//@   ensures [c15-fail] err != nil ==> *txn == old(*txn) -- every error return precedes the Set, or is the Set's own error
 
 //@ func writeUTXO
 //@   trustpre PayloadHash   -- its precondition (payload well-formedness) belongs to C06; irrelevant to the ghost-key binding proved here
-//@   property C04
+//@   property C04, C15
 //@   requires txn != nil && utxo != nil && ver != nil && KeysOK(utxo.Keys)
 //@   requires [index] utxo.Index <= 1024 -- graphUtxoKey; an output index of a decoded transaction
 //@   requires [no-alias] forall i int :: {utxo.Keys[i]} 0 <= i && i < len(utxo.Keys) ==> utxo.Keys[i] != &ver.hash -- typing: a *crypto.Key never points at a crypto.Hash field (the engine keeps all byte arrays in one heap component)
@@ -94,6 +106,12 @@ package storage
 //@   ensures [foreign-refused] !GhostException(utxo.Hash) && (exists i int :: 0 <= i && i < len(utxo.Keys) && old(GhostOf(*txn, *utxo.Keys[i])) != 0 && old(GhostOf(*txn, *utxo.Keys[i])) != kvval(utxo.Hash)) ==> err != nil
 //@   ensures [no-overwrite] forall k mathint :: {badger.kvget(*txn, k)} keykind(k) == 2 && badger.kvget(*txn, k) != old(badger.kvget(*txn, k)) ==> old(badger.kvget(*txn, k)) == 0 && badger.kvget(*txn, k) == kvval(utxo.Hash)
 //@   ensures [bound] err == nil ==> forall i int :: {utxo.Keys[i]} 0 <= i && i < len(utxo.Keys) ==> GhostOf(*txn, *utxo.Keys[i]) == kvval(utxo.Hash) || (GhostException(utxo.Hash) && GhostOf(*txn, *utxo.Keys[i]) != 0)
+//@   -- C15: which keys an output may touch: its own UTXO slot, GHOST bindings (never an existing one: [no-overwrite]), and the one
+//@   -- node-state / custodian / withdrawal record of its type (kinds 14..16)
+//@   ensures [c15-frame] forall k mathint :: {badger.kvget(*txn, k)} badger.kvget(*txn, k) != old(badger.kvget(*txn, k)) ==>
+//@       keykind(k) == 2 || k == UK(utxo.Hash, utxo.Index) || keykind(k) == 14 || keykind(k) == 15 || keykind(k) == 16
+//@   ensures [c15-utxo] err == nil ==> HasUtxo(*txn, utxo.Hash, utxo.Index)
+//@   ensures [c15-hash] old(ver.hash.HasValue()) ==> ver.hash == old(ver.hash)
 //@   loop 0 invariant [bound] forall j int :: {utxo.Keys[j]} 0 <= j && j <= rangeindex ==> GhostOf(*txn, *utxo.Keys[j]) == kvval(utxo.Hash) || (GhostException(utxo.Hash) && GhostOf(*txn, *utxo.Keys[j]) != 0)
 //@   loop 0 invariant [step] GhostStep(old(*txn), *txn, utxo.Hash)
 
